@@ -29,6 +29,7 @@ def main():
     ap.add_argument("--replay", default=None)
     ap.add_argument("--repo", default=None)
     ap.add_argument("--no-evidence", action="store_true")
+    ap.add_argument("--freeze", action="store_true", help="rewrite tables/reference/<prop>.json from this run")
     a = ap.parse_args()
     tier = a.tier if a.tier in ("quick", "thorough") else "quick"
     seed = int(os.environ.get("VERIF_SEED", "0") or 0)
@@ -47,6 +48,7 @@ def main():
         return 2
     ctx = report.Ctx(prop, tier, db, seed)
     ctx.no_evidence = a.no_evidence
+    ctx.freeze = a.freeze
     only = None
     if a.replay:
         with open(a.replay) as fh:
